@@ -20,7 +20,9 @@ RULE = ("For each generated (explainer in {IncrementalPFI, IncrementalSage, Batc
         "marginal loss, model loss, marginal prediction (exact rationals) equal their values before the call; after catching and "
         "continuing the stream the independent exact reference restricted to the successful calls still agrees after every call "
         "(which implies the C01 identity for SAGE), resp. the C05 efficiency identity holds for Batch/Interval. Non-trivial: a fault on "
-        "a call t >= 2 at a position after the first callback; distinct by digest of (case, fault plan).")
+        "a call t >= 2 at a position after the first callback; distinct by digest of (case, fault plan). RIVER LOSS: the loss handed to "
+        "IncrementalPFI / IncrementalSage is a river Metric object (MAE / MSE subclass) whose update() raises at the k-th loss evaluation of "
+        "call t, for every (t, k): the exception must come out of explain_one, estimates and seen_samples stay what they were.")
 ASSUMPTIONS = ["faults are raised by the doubles at callback entry (imputer: before and after delegating to the library imputer; "
                "storage: before the storage is touched)",
                "if a fault on the very first call leaves the storage empty the harness seeds it through the public update_storage()"]
@@ -282,15 +284,108 @@ def cases(draw):
     return {'cls': cls, 'cfg': cfg}
 
 
-SUBS = {'faults': enumerate_case}
+SUBS = {'faults': enumerate_case, 'river_loss': lambda case: run_river_loss(case)}
 
 
 def replay(sub, case):
+    if sub == 'river_loss':
+        return run_river_loss(case)
     return enumerate_case(case, pairs='all')
 
 
 def self_check():
     ref.self_check()
+
+
+def _faulty_metric(kind):
+    """A river metric whose update() raises on demand - BEFORE it touches its own state (the fault is the callback's, the metric
+    stays what it was).  The documented way to hand a loss to an explainer is the metric object itself."""
+    from river import metrics
+    base = {'mae': metrics.MAE, 'mse': metrics.MSE}[kind]
+
+    class FaultyMetric(base):
+        calls = 0
+        fail_at = None
+        raised = None
+
+        def update(self, y_true, y_pred, *a, **k):
+            cls = type(self)
+            cls.calls += 1
+            if cls.fail_at is not None and cls.calls == cls.fail_at:
+                cls.raised = Injected(f'metric.update call {cls.calls}')
+                raise cls.raised
+            return super().update(y_true, y_pred, *a, **k)
+
+    return FaultyMetric
+
+
+def run_river_loss(case):
+    """The loss is a river Metric OBJECT: for every loss evaluation k of every explain_one call t the metric's update() raises once;
+    the exception must come out of explain_one and the estimates must be what they were; the stream then carries on."""
+    from ixai.explainer import IncrementalPFI
+    from ixai.explainer.sage import IncrementalSage
+    names = [f'f{i}' for i in range(case['d'])]
+    w = case['weights']
+
+    def model(x):
+        return {'output': sum(w[i % len(w)] * x[n] for i, n in enumerate(names))}
+    rs = random.Random(case['vseed'])
+    stream = [({n: float(rs.randint(-4, 4)) for n in names}, float(rs.randint(-3, 3))) for _ in range(case['T'])]
+    positions = 0
+    for t_fail in range(1, case['T']):
+        k = 1
+        while True:
+            M = _faulty_metric(case['metric'])
+            random.seed(case['seeds'][0])
+            np.random.seed(case['seeds'][1])
+            kw = {'n_inner_samples': case['n_inner'], 'dynamic_setting': case['dynamic'], 'smoothing_alpha': case['alpha']}
+            cls_ = IncrementalPFI if case['cls'] == 'pfi' else IncrementalSage
+            try:
+                ex = cls_(model, M(), names, **kw)
+            except Exception as e:
+                return Result(False, key=f'C17:river-loss:construct:{type(e).__name__}', detail=repr(e))
+            beyond = False
+            for t, (x, y) in enumerate(stream):
+                before = _snap(ex, case['cls'])
+                seen = ex.seen_samples
+                M.calls, M.fail_at, M.raised = 0, (k if t == t_fail else None), None
+                try:
+                    ex.explain_one(dict(x), y)
+                    raised = None
+                except Injected as e:
+                    raised = e
+                except Exception as e:
+                    if M.raised is not None:
+                        return Result(False, key='C17:river-loss:exception-replaced', detail=f'call {t + 1}: the injected fault was replaced by {e!r}')
+                    return Result(False, key=f'C17:river-loss:unexpected-exception:{type(e).__name__}', detail=f'call {t + 1}: {e!r}')
+                if t != t_fail:
+                    continue
+                if M.raised is None:
+                    beyond = True          # fewer than k loss evaluations in this call: this position does not exist
+                    break
+                positions += 1
+                if raised is None or raised is not M.raised:
+                    return Result(False, key='C17:river-loss:exception-swallowed',
+                                  detail=(f'{case["cls"]}: call {t + 1}, loss evaluation {k}: metric.update() raised, explain_one returned normally '
+                                          f'(importance values {dict(ex.importance_values)!r})'))
+                after = _snap(ex, case['cls'])
+                changed = [a for a in ATTRS[case['cls']] if after[a] != before[a]]
+                if changed or ex.seen_samples != seen:
+                    return Result(False, key=f'C17:river-loss:estimates-changed:{"+".join(changed) or "seen_samples"}',
+                                  detail=f'{case["cls"]}: call {t + 1}, loss evaluation {k} raised; changed: ' +
+                                         '; '.join(f'{a}: {before[a]!r} -> {after[a]!r}' for a in changed[:3]))
+            if beyond:
+                break
+            k += 1
+    return Result(True, nontrivial=positions >= 3, labels=[case['cls'], 'river_' + case['metric'], f'positions>={min(positions, 8)}'])
+
+
+@st.composite
+def river_cases(draw):
+    return {'cls': draw(st.sampled_from(['sage', 'pfi'])), 'metric': draw(st.sampled_from(['mae', 'mse'])), 'd': draw(st.integers(1, 3)),
+            'weights': [draw(st.sampled_from([1.0, -0.5, 2.0])) for _ in range(3)], 'T': draw(st.integers(3, 5)),
+            'n_inner': draw(st.integers(1, 2)), 'dynamic': draw(st.booleans()), 'alpha': draw(st.sampled_from([0.5, 0.1, 1.0])),
+            'vseed': draw(st.integers(0, 10 ** 6)), 'seeds': [draw(gen.seed32) % 2 ** 31, draw(gen.seed32) % 2 ** 31]}
 
 
 def run(ctx):
@@ -305,6 +400,8 @@ def run(ctx):
             totals['pair_plans'] += res.detail['pairs']
         return res
 
-    ctx.search('faults', cases(), run_case, ctx.n(100, 6400))
+    if not ctx.search('faults', cases(), run_case, ctx.n(100, 6400)):
+        return
+    ctx.search('river_loss', river_cases(), run_river_loss, ctx.n(40, 3200))
     ctx.extra.update(totals)
     ctx.extra['exhaustive_subspaces'] = ['per generated case: every (call t, callback k) single-fault position']
